@@ -448,7 +448,24 @@ where
         // writing the trailer generates another id for the info dictionary
         trailer.size = (self.refs.len() + 2) as _;
         let trailer_dict = trailer.to_dict(self)?;
-        
+
+        // a save that fails leaves neither a half-written revision nor the entry promised for
+        // its cross-reference stream behind, so that it can be retried
+        let backend_len = self.backend.len();
+        let num_refs = self.refs.len();
+        if let Err(e) = self.write_revision(&trailer_dict) {
+            self.backend.truncate(backend_len);
+            self.refs.truncate(num_refs);
+            return Err(e);
+        }
+
+        // update trailer which may have change now.
+        self.cache.clear();
+        *trailer = Trailer::from_dict(trailer_dict, &self.resolver())?;
+
+        Ok(&self.backend)
+    }
+    fn write_revision(&mut self, trailer_dict: &Dictionary) -> Result<()> {
         let xref_promise = self.promise::<Stream<XRefInfo>>();
 
         let mut changes: Vec<_> = self.changes.iter().collect();
@@ -482,11 +499,7 @@ where
 
         write!(self.backend, "\nstartxref\n{}\n%%EOF", xref_pos).unwrap();
 
-        // update trailer which may have change now.
-        self.cache.clear();
-        *trailer = Trailer::from_dict(trailer_dict, &self.resolver())?;
-
-        Ok(&self.backend)
+        Ok(())
     }
 }
 
